@@ -5,6 +5,7 @@ import (
 	"fmt"
 	"math/rand"
 	"sync/atomic"
+	"time"
 
 	ipfslog "berty.tech/go-ipfs-log"
 	"berty.tech/go-ipfs-log/accesscontroller"
@@ -381,7 +382,21 @@ func c06Case(run *evid.Run, i int, j *Journal) {
 		expectErr := nInvalid > 0 || nDenied > 0 || nthHit
 		desc := fmt.Sprintf("round %d: %s <- corrupted(r%d) corrupt=%v policy=%s candidates=%d invalid=%d denied=%d nthHit=%v", round, dstName, s, posClass, pol.name, len(cands), nInvalid, nDenied, nthHit)
 		j.Log(map[string]any{"case": i, "codec": h.Codec, "phase": "corrupt-merge", "desc": desc})
-		_, jerr := dst.Join(src, -1)
+		var jerr error
+		if pol.inspect {
+			// a controller that looks at the log through its context: the merge must not block on the log's own lock
+			ok, dead, dump := guardCall(func() { _, jerr = dst.Join(src, -1) }, 60*time.Second)
+			if !ok {
+				if dead {
+					run.Violate("C06/merge-never-returns", det("codec", h.Codec, "policy", pol.name), map[string]any{"case": i, "desc": desc, "blocked_goroutines": dump}, "a merge into a log whose access controller inspects the log entries never returns (%s)", desc)
+				} else {
+					run.Inconclusive("merge with an inspecting controller did not return: " + desc)
+				}
+				return
+			}
+		} else {
+			_, jerr = dst.Join(src, -1)
+		}
 		after := hx.Observe(dst)
 		run.Count("merges_checked", 1)
 		run.Count("candidates_total", len(cands))
